@@ -191,6 +191,7 @@ def build_trie(repo, spec_dir, canary=False):
                            Clause('find_next_state.found_covering_label', 'r is Some ==> %s.contains_key((current_state, r->Some_0)) && label_covers(%s[(current_state, r->Some_0)], *grapheme)' % (NE, NE), ['C01', 'C03', 'C16']),
                            Clause('find_next_state.only_widens', 'edges_cover(%s, %s) && %s.dom() == %s.dom() && edges_wf(%s)' % (OE, NE, NE, OE, NE), S),
                            Clause('find_next_state.no_relabel', '%s == %s' % (NE, OE), X),
+                           Clause('find_next_state.relabel_only_by_upward_merge', '%s != %s ==> r is Some && %s.contains_key((current_state, r->Some_0)) && joined(%s[(current_state, r->Some_0)].chars@) == joined(grapheme.chars@) && %s[(current_state, r->Some_0)].max == grapheme.max - 1 && %s == %s.insert((current_state, r->Some_0), %s[(current_state, r->Some_0)])' % (NE, OE, OE, OE, OE, NE, OE, NE), X),
                            Clause('find_next_state.found_same_label', 'edges_exact(%s) ==> (r is Some ==> %s.contains_key((current_state, r->Some_0)) && label_eq(%s[(current_state, r->Some_0)], *grapheme))' % (OE, OE, OE), X),
                            Clause('find_next_state.none_means_absent', 'r is None ==> label_absent(%s, current_state, *grapheme)' % OE, X)],
                   loops={1: ['*self == *old(self)', 'it1.seq() == into_iter_elts(it1.snapshot@)',
